@@ -482,7 +482,7 @@ fn call_builtin_inner(m: &mut Model, site: &ScopeRef, name: &str, args: Vec<V>) 
                 V::Stream(s) => {
                     if Model::stream_is_infinite(s) {
                         match s {
-                            StreamV::Map(..) | StreamV::Filter(..) => {
+                            StreamV::Map(..) | StreamV::Filter(..) | StreamV::Zip(..) => {
                                 unknown("len of lazily derived infinite stream (does not terminate)")
                             }
                             _ => Ok(V::Float(f64::INFINITY)),
@@ -541,6 +541,7 @@ fn call_builtin_inner(m: &mut Model, site: &ScopeRef, name: &str, args: Vec<V>) 
             let (a, b) = need2(name, args)?;
             match (a, b) {
                 (V::Dict(mut x), V::Dict(y)) => {
+                    x.amb |= y.amb;
                     for (k, v) in y.entries {
                         x.insert(k, v);
                     }
@@ -554,8 +555,9 @@ fn call_builtin_inner(m: &mut Model, site: &ScopeRef, name: &str, args: Vec<V>) 
             let (a, b) = need2(name, args)?;
             match (a, b) {
                 (V::Dict(mut x), V::Dict(y)) => {
+                    x.amb |= y.amb;
                     for (k, v) in y.entries {
-                        match x.find(&k) {
+                        match x.find_w(&k) {
                             None => x.entries.push((k, v)),
                             Some(j) => {
                                 let old = x.entries[j].1.clone();
@@ -584,11 +586,11 @@ fn call_builtin_inner(m: &mut Model, site: &ScopeRef, name: &str, args: Vec<V>) 
                 _ => return throw("value error: not seq+func"),
             };
             let xs = m.iterate(&a, name)?;
-            let mut d = Dict { entries: Vec::new(), default: None };
+            let mut d = Dict::new();
             for x in xs {
                 let k = m.call_func_at(site, &f, vec![x.clone()])?;
                 let k = m.to_key(k)?;
-                match d.find(&k) {
+                match d.find_w(&k) {
                     Some(j) => {
                         if let V::List(g) = &mut d.entries[j].1 {
                             g.push(x);
@@ -608,6 +610,15 @@ fn call_builtin_inner(m: &mut Model, site: &ScopeRef, name: &str, args: Vec<V>) 
             match (a, b) {
                 (V::Dict(mut x), V::Dict(y)) => {
                     let keep_if_in = name == "&&";
+                    if keep_if_in {
+                        // a key present on both sides under two spellings: either may be kept
+                        let mut yy = y.clone();
+                        yy.amb = false;
+                        for (k, _) in x.entries.iter() {
+                            yy.find_w(k);
+                        }
+                        x.amb |= yy.amb | y.amb;
+                    }
                     x.entries.retain(|(k, _)| y.get(k).is_some() == keep_if_in);
                     Ok(V::Dict(x))
                 }
@@ -683,6 +694,9 @@ fn call_builtin_inner(m: &mut Model, site: &ScopeRef, name: &str, args: Vec<V>) 
         "keys" | "values" | "items" => {
             let a = need1(args)?;
             match &a {
+                V::Dict(d) if d.amb && name != "values" && !d.entries.is_empty() => {
+                    unknown("key spelling not determined (equal keys of different spellings met)")
+                }
                 V::Dict(d) => Ok(V::List(match name {
                     "keys" => d.entries.iter().map(|(k, _)| k.clone()).collect(),
                     "values" => d.entries.iter().map(|(_, v)| v.clone()).collect(),
@@ -725,6 +739,7 @@ fn call_builtin_inner(m: &mut Model, site: &ScopeRef, name: &str, args: Vec<V>) 
                     let sorted = model_sort(xs)?;
                     same_kind(&a, sorted)
                 }
+                V::Dict(d) if d.amb => unknown("key spelling not determined"),
                 V::Dict(d) => {
                     // sort of a dict sorts its keys: order-insensitive, fine
                     let xs: Vec<V> = d.entries.iter().map(|(k, _)| k.clone()).collect();
@@ -919,6 +934,7 @@ fn call_builtin_inner(m: &mut Model, site: &ScopeRef, name: &str, args: Vec<V>) 
                 return unknown("sum partial application");
             }
             let xs = match &a {
+                V::Dict(d) if d.amb => return unknown("key spelling not determined"),
                 V::Dict(d) => d.entries.iter().map(|(k, _)| k.clone()).collect(),
                 v => list_like(m, v, "sum")?,
             };
@@ -1014,10 +1030,11 @@ fn call_builtin_inner(m: &mut Model, site: &ScopeRef, name: &str, args: Vec<V>) 
                     let mut d = Dict {
                         entries: Vec::new(),
                         default: Some(Box::new(vint(0))),
+                        amb: false,
                     };
                     for x in xs {
                         let k = m.to_key(x)?;
-                        match d.find(&k) {
+                        match d.find_w(&k) {
                             Some(j) => {
                                 if let V::Int(n) = &d.entries[j].1 {
                                     d.entries[j].1 = V::Int(n + 1);
